@@ -2,10 +2,11 @@ CONSTANTS
   MaxIn = 1
   OutK = 1
   InK = 1
+  NEnt = 5
   MaxWS = 400
   MalWS = 400
   WS <- WS3
-  N = 600
+  N = 400
 INIT RandInit
 NEXT RandNext
 INVARIANT EmitResult
